@@ -354,6 +354,39 @@ def grid_batches(ctx, n):
                 if got != ["d1", "p1", "p2"]:
                     ctx.violation("edits through the parent-derived handle and the direct handle lost a change",
                                   dict(case, got=got), "dir-edit-lost-two-handles")
+                # reads are whole-file operations too: a read requested after an edit (without waiting for it)
+                # must see that edit, and one requested after a delete must not see the entry
+                rnames = ["r%d" % i for i in range(ctx.rng.randrange(1, 4))]
+                rds = []
+                for rn in rnames:
+                    rds.append(("set", rn, direct.set_uri(rn, lit, lit)))
+                    kind = ctx.rng.choice(["list", "has", "get"])
+                    if kind == "list":
+                        rds.append(("list", rn, direct.list()))
+                    elif kind == "has":
+                        rds.append(("has", rn, direct.has_child(rn)))
+                    else:
+                        rds.append(("get", rn, direct.get(rn)))
+                gone = rnames[0]
+                rds.append(("del", gone, direct.delete(gone)))
+                rds.append(("has-after-del", gone, direct.has_child(gone)))
+                for (kind, rn, d) in rds:
+                    try:
+                        val = rt.wait(d)
+                    except grid.Stuck:
+                        ctx.violation("directory operation never completed", case, "dir-edit-blocked")
+                        continue
+                    except Exception as e:
+                        ctx.violation("a read requested after an edit on the same node failed: %s" % type(e).__name__,
+                                      dict(case, op=kind, name=rn), "dir-read-not-serialized:" + kind)
+                        continue
+                    if (kind == "list" and rn not in val) or (kind == "has" and val is not True):
+                        ctx.violation("a read requested after an edit on the same node did not see the edit",
+                                      dict(case, op=kind, name=rn), "dir-read-not-serialized:" + kind)
+                    if kind == "has-after-del" and val is not False:
+                        ctx.violation("a read requested after a delete on the same node still saw the entry",
+                                      dict(case, op=kind, name=rn), "dir-read-not-serialized:" + kind)
+                ctx.count("dir-read-after-edit", len(rds))
                 names = names + ["sub"]
                 extra = "via-second-handle"
                 dds.append(dn2.set_uri(extra, lit, lit))
